@@ -42,7 +42,7 @@ func (call *OptionCall) DeepCopy() OptionCall {
 }
 
 type TypedConstant struct {
-	Type  Type
+	Type  Type `jsonschema:"required"`
 	Value any
 }
 
